@@ -13,16 +13,18 @@ Recs == ndJsonDeserialize(IOEnv.TRACE)
 
 VARIABLE l
 
+\* rec.limit > 0: the record is told in a number space whose largest object number is rec.limit (see c10.rs)
 Judge(rec) ==
-    LET b  == DocOfJson(rec.before)
-        a  == DocOfJson(rec.after)
-        fs == Classify(b, a, rec.start)
+    LET b   == DocOfJson(rec.before)
+        a   == DocOfJson(rec.after)
+        ctx == [CodeDev EXCEPT !.limit = rec.limit]                             \* the code as it is (Renumber!CodeDev)
+        fs  == ClassifyX(b, a, rec.start, ctx)
     IN IF Acceptable(b, a, rec.start) # (Fails(b, a, rec.start) = {}) THEN "spec-inconsistent"
        ELSE IF fs # {} THEN VerdictOf(fs)
-       ELSE LET r == ImplRunX(b, rec.start, CodeDev)                           \* the code as it is (Renumber!CodeDev)
+       ELSE LET r == ImplRunX(b, rec.start, ctx)
                 m == IF r.panic THEN [r EXCEPT !.max_id = 0] ELSE r             \* new_id.saturating_sub(1)
             IN
-            IF m.objs = a.objs /\ m.trailer = a.trailer /\ m.bms = a.bms /\ m.max_id = a.max_id
+            IF ~m.panicfit /\ m.objs = a.objs /\ m.trailer = a.trailer /\ m.bms = a.bms /\ m.max_id = a.max_id
             THEN "ok" ELSE "ok-drift"
 
 Init == l = 1
